@@ -1,7 +1,7 @@
 #!/usr/bin/env python3
 """Self-test of the checker, both ways (DESIGN 2.5).
 
-  selftest/run.py [--only ID-substring] [--tests] [--benign-only|--mutants-only]
+  selftest/run.py [--only ID-substring] [--tests] [--benign-only|--mutants-only] [--all-props] [--corpus|--corpus-only]
 
 For every entry of mutants.py: copy /repo's working tree to a scratch directory
 outside /repo and /verif, apply the textual edit, run the named property's check
@@ -51,6 +51,22 @@ def apply(d, m):
     return saved
 
 
+def apply_diff(d, path):
+    """apply a unified diff of the benign corpus to the copy; returns the saved contents of the files it touches"""
+    import re
+    files = re.findall(r'^\+\+\+ b/(\S+)', open(path).read(), re.M)
+    saved = {}
+    for f in files:
+        p = os.path.join(d, f)
+        if os.path.exists(p):
+            saved[p] = open(p).read()
+    r = subprocess.run(['git', 'apply', os.path.abspath(path)], cwd=d, stdout=subprocess.PIPE, stderr=subprocess.STDOUT, text=True)
+    if r.returncode != 0:
+        restore(saved)
+        raise RuntimeError('%s does not apply: %s' % (path, r.stdout[-200:]))
+    return saved
+
+
 def restore(saved):
     for p, s in saved.items():
         open(p, 'w').write(s)
@@ -93,11 +109,20 @@ def main():
             entries += [('mutant', m) for m in M.MUTANTS]
         if '--mutants-only' not in args:
             entries += [('benign', m) for m in M.BENIGN]
+        if '--corpus' in args or '--corpus-only' in args:
+            # the saved behaviour-preserving refactorings (benign/<round>/*.diff, written by fresh sub-agents): every
+            # property's check must stay silent on each of them
+            import glob
+            if '--corpus-only' in args:
+                entries = []
+            for path in sorted(glob.glob(os.path.join(VERIF, 'benign', '*', '*.diff'))):
+                rel = os.path.relpath(path, VERIF)
+                entries.append(('benign', {'id': rel, 'props': ALL_PROPS, 'diff': path}))
         for kind, m in entries:
             if only and only not in m['id']:
                 continue
             try:
-                saved = apply(d, m)
+                saved = apply_diff(d, m['diff']) if m.get('diff') else apply(d, m)
             except RuntimeError as e:
                 print('SKIP  %s' % e)
                 results.append({'id': m['id'], 'kind': kind, 'status': 'anchor-missing'})
@@ -131,7 +156,7 @@ def main():
                         if rc != 0:
                             noisy.append((prop, out))
                     status = 'silent' if not noisy else 'FALSE-ALARM'
-                    print('%-22s %-34s %s' % (status, m['id'], ','.join(m['props'])))
+                    print('%-22s %-34s %s' % (status, m['id'], ','.join(m['props']) if len(m['props']) < 20 else 'all'))
                     for prop, out in noisy:
                         bad += 1
                         print('    ' + '\n    '.join(out.strip().splitlines()[-6:]))
